@@ -111,8 +111,20 @@ def MState.dump (m : MState) : String :=
 /-- the options the request ends up with, or the front-end error (commands backends) -/
 def frontOpts (backend : String) (r : Req) : Except WriteErr WriteOpts :=
   if backend == "cmdmem" || backend == "cmdsql" then
-    cmdFront Gen.StoreWrite.onDuplicateTable Gen.StoreWrite.onMissingTable r.dels r.writes (rawOpt r.onDuplicate) (rawOpt r.onMissing)
+    cmdFront Gen.StoreWrite.onDuplicateTable Gen.StoreWrite.onMissingTable
+      (Gen.StoreWrite.cmdDeleteValidators.contains "IsValidObject" && Gen.StoreWrite.cmdDeleteValidators.contains "IsValidRelation")
+      r.dels r.writes (rawOpt r.onDuplicate) (rawOpt r.onMissing)
   else .ok (dsOpts r)
+
+/-- the options the API documents for the request's words, independent of the source's tables: "" / "error" → fail,
+    "ignore" → skip; any other word, a malformed delete key or a key given twice must be rejected (`none`) -/
+def intendedOpts (backend : String) (r : Req) : Option WriteOpts :=
+  if backend == "cmdmem" || backend == "cmdsql" then
+    let okWord (w : String) := w == "_" || w == "error" || w == "ignore"
+    if (r.dels.isEmpty && r.writes.isEmpty) || !(okWord r.onMissing && okWord r.onDuplicate)
+       || r.dels.any (fun k => !validDeleteKey k) || hasDupKeys (r.dels ++ r.writes.map (·.key)) then none
+    else some (dsOpts r)
+  else some (dsOpts r)
 
 def stepModel (backend : String) (m : MState) (r : Req) (now : Nat) (f : Option Fail := none) : MState × String :=
   match frontOpts backend r with
